@@ -1,5 +1,6 @@
 import Just.Lemmas.LexerTotal
 import Just.Lemmas.LexerSafe
+import Just.Lemmas.LexerSafe2
 import Just.Props.C12
 /-
 C11  No input makes just panic, abort, hang or report an internal error.
@@ -48,6 +49,18 @@ indentation stack is an empty string under non-empty strings, and the loop ends 
 (Before the `fix:` for a backslash at the end of the file this was false, and the model said so.) -/
 theorem lexer_asserts_hold (src : List Char) (e : Err) (h : tokenize src = .error e) : e.kind.isAssert = false :=
   tokenize_asserts_hold src e h
+
+/-- **The lexer is total and never reports an internal error.**  For every text, `tokenize` returns
+tokens or an ORDINARY diagnostic: no `internal_error` site is reachable (`Lexer advanced past end of
+text`, `Lexer presumed character`, `Lexer::error: expected string or backtick token start`,
+`lex_string: invalid string start`, `lex_interpolation … empty interpolation stack`,
+`lex_delimiter called with non-delimiter token`), no assertion fails, and the model's fuel is never
+exhausted.  Proved by Hoare-style reasoning over the model: every `advance`/`presume` is guarded by
+what the dispatch just looked at, the string scanner keeps "the lexeme starts with its delimiter",
+the body scanner stops on text that is still there, `advance_n` never exceeds the leading white space. -/
+theorem lexer_no_internal_error (src : List Char) (e : Err) (h : tokenize src = .error e) :
+    e.kind.isInternal = false ∧ e.kind.isFuel = false :=
+  tokenize_no_internal src e h
 
 /-- every round of the main loop starts with no token in progress -/
 theorem main_loop_idle (src : List Char) (s : St) (b : Bool) (s' : St) (hi : Inv src s) (hc : s.cur = [])
